@@ -112,6 +112,46 @@ def _q1(ctx, R):
     R.floor("Q1 call sites of family", 20)
 
 
+def _glob_cases(vm, c):
+    """[(is_case, value operand text, pattern operand text)] for every way of reaching the matcher call `c` in `vm`, the operands with
+    the locals they were prepared in expanded; None when the function is outside what path enumeration models"""
+    from ..paths import stmt_paths, expand
+    from ..core import copy_tree
+    cstmt = next((p_ for p_ in [c] + list(parent_chain(c)) if isinstance(p_, ast.stmt)), None)
+    hits = []
+
+    def probe(st_, facts_, defs_=None):
+        if st_ is cstmt:
+            hits.append((facts_, dict(defs_ or {})))
+    paths = list(stmt_paths(vm.node.body, frozenset(), {}, None, probe, opaque_loops=True))
+    if any(oc is None for oc, fa, df in paths):
+        return None
+    for oc, fa, df in paths:
+        if isinstance(oc, tuple) and oc[0] == "return" and oc[1] is not None and any(x is c for x in ast.walk(oc[1])):
+            hits.append((fa, dict(df)))
+    if not hits:
+        return None
+
+    def pick(e, sens):
+        class T(ast.NodeTransformer):
+            def visit_IfExp(self, n):
+                self.generic_visit(n)
+                t = norm(n.test)
+                if t == "is_case":
+                    return n.body if sens else n.orelse
+                if t in ("not is_case", "is_case is False"):
+                    return n.orelse if sens else n.body
+                return n
+        return T().visit(copy_tree(e))
+    out = []
+    for fa, df in hits:
+        sens = any(a_ in fa for a_ in ("truthy(is_case)", "is(is_case,True)", "isnot(is_case,False)"))
+        insens = any(a_ in fa for a_ in ("falsy(is_case)", "is(is_case,False)", "eq(is_case,False)"))
+        for cs in ([True] if sens else [False] if insens else [True, False]):
+            out.append((cs, expand(norm(pick(c.args[0], cs)), df), expand(norm(pick(c.args[1], cs)), df)))
+    return out
+
+
 def _q2_q4(ctx, R):
     R.rule("Q2", "the case-insensitive branch really is case-insensitive: is_case=False never reaches fnmatch.fnmatch with "
                  "un-folded operands; the regex branch is a full match with IGNORECASE exactly when is_case is false")
@@ -147,6 +187,33 @@ def _q2_q4(ctx, R):
                     if isinstance(x, ast.Call) and isinstance(x.func, ast.Attribute) and x.func.attr == "replace" and len(x.args) == 2 \
                             and isinstance(x.args[0], ast.Constant) and x.args[0].value == "[" and isinstance(x.args[1], ast.Constant) and x.args[1].value == "[[]":
                         here.add("[")
+            cases = _glob_cases(vm, c) if len(c.args) >= 2 else None
+            if cases:
+                # path-based reading: the operands as they are on each way of reaching the call, per value of is_case (operands prepared
+                # by earlier statements, a conditional expression as an operand, one call serving both cases)
+                fold = lambda t: re.search(r"\.(lower|casefold|upper)\(\)", t) is not None
+                here = {"["} if all(".replace('[', '[[]')" in pt for cs, vt, pt in cases) else set()
+                neutralised = here if neutralised is None else (neutralised & here)
+                for sens in (True, False):
+                    mine = [(vt, pt) for cs, vt, pt in cases if cs is sens]
+                    if not mine:
+                        continue
+                    if sens:
+                        okc = fn in ("fnmatch.fnmatchcase", "fnmatchcase") and not any(fold(vt) or fold(pt) for vt, pt in mine)
+                        if okc:
+                            R.ok("Q2", "case-sensitive glob uses fnmatchcase", vm.loc(c))
+                        else:
+                            R.bad("Q2", "%s|case-sensitive glob" % vm.key, vm.loc(c),
+                                  "is_case=True reaches `%s`, which is not a case-sensitive match on every platform" % short(c, 60))
+                    else:
+                        okc = fn in ("fnmatch.fnmatchcase", "fnmatchcase", "fnmatch.fnmatch") and all(fold(vt) and fold(pt) for vt, pt in mine)
+                        if okc:
+                            R.ok("Q2", "case-insensitive glob folds both operands", vm.loc(c))
+                        else:
+                            R.bad("Q2", "%s|case-insensitive glob" % vm.key, vm.loc(c),
+                                  "is_case=False reaches `%s`: fnmatch.fnmatch normalises case with os.path.normcase, the identity on POSIX, so the match stays "
+                                  "case-sensitive unless both operands are case-folded" % short(c, 60))
+                continue
             neutralised = here if neutralised is None else (neutralised & here)
             if case_sensitive_branch:
                 if fn in ("fnmatch.fnmatchcase", "fnmatchcase") and not both_folded:
@@ -184,6 +251,51 @@ def _q2_q4(ctx, R):
                 t, a, b = norm(flags.test), norm(flags.body), norm(flags.orelse)
                 if (t == "is_case" and a == "0" and "IGNORECASE" in b) or (t in ("not is_case", "is_case is False") and "IGNORECASE" in a and b == "0"):
                     ok_flags = True
+            elif isinstance(flags, ast.Name):
+                # the flags are picked by statements ahead of the call: on every path that reaches it, IGNORECASE exactly when is_case is false
+                from ..paths import stmt_paths, expand
+                cstmt = next((p_ for p_ in [c] + list(parent_chain(c)) if isinstance(p_, ast.stmt)), None)
+                hits = []
+
+                def probe(st_, facts_, defs_=None, hits=hits, cstmt=cstmt, flags=flags):
+                    if st_ is cstmt or (isinstance(st_, ast.If) and False):
+                        hits.append((facts_, expand(flags.id, defs_ or {})))
+                # the call may sit in the test of an `if`: probe the statement list with the test hoisted
+                body = vm.node.body
+                paths = list(stmt_paths(body, frozenset(), {}, None, probe, opaque_loops=True))
+                if not hits:
+                    for st_ in walk_local(vm.node):
+                        if isinstance(st_, ast.If) and any(x is c for x in ast.walk(st_.test)):
+                            cstmt = ast.Expr(value=st_.test)
+                            ast.copy_location(cstmt, st_)
+                            par = getattr(st_, "_parent", None)
+                            for fld in ("body", "orelse", "finalbody"):
+                                lst_ = getattr(par, fld, None)
+                                if isinstance(lst_, list) and any(st_ is z for z in lst_):
+                                    i_ = [k_ for k_, z in enumerate(lst_) if z is st_][0]
+                                    saved = list(lst_)
+                                    lst_.insert(i_, cstmt)
+                                    try:
+                                        hits2 = []
+
+                                        def probe2(s2, f2, d2=None, hits2=hits2, cstmt=cstmt, flags=flags):
+                                            if s2 is cstmt:
+                                                hits2.append((f2, expand(flags.id, d2 or {})))
+                                        paths = list(stmt_paths(body, frozenset(), {}, None, probe2, opaque_loops=True))
+                                        hits = hits2
+                                    finally:
+                                        lst_[:] = saved
+                if hits and not any(oc is None for oc, fa, df in paths):
+                    ok_flags = True
+                    for fa, val in hits:
+                        v_ = val.replace("(", "").replace(")", "")
+                        insens = any(a_ in fa for a_ in ("falsy(is_case)", "is(is_case,False)", "eq(is_case,False)"))
+                        sens = any(a_ in fa for a_ in ("truthy(is_case)", "isnot(is_case,False)", "is(is_case,True)"))
+                        if "IGNORECASE" in v_ and insens and "if" not in v_:
+                            continue
+                        if v_ == "0" and sens:
+                            continue
+                        ok_flags = False
             if ok_flags:
                 R.ok("Q2", "regex flags: IGNORECASE iff not is_case", vm.loc(c))
             else:
@@ -192,13 +304,36 @@ def _q2_q4(ctx, R):
     R.floor("matcher calls in _value_matches_pattern", 3)
     # Q4
     wild = None
+
+    def charset(e, depth=0):
+        """the characters of a constant character collection: "*?", {"*", "?"}, frozenset("*?"), or a module-level name bound to one"""
+        if isinstance(e, ast.Constant) and isinstance(e.value, str):
+            return set(e.value)
+        if isinstance(e, (ast.Set, ast.List, ast.Tuple)) and e.elts and all(isinstance(x, ast.Constant) and isinstance(x.value, str) for x in e.elts):
+            return {x.value for x in e.elts}
+        if isinstance(e, ast.Call) and norm(e.func) in ("frozenset", "set", "tuple", "list") and len(e.args) == 1 and not e.keywords:
+            return charset(e.args[0], depth + 1)
+        if isinstance(e, ast.Name) and depth < 3 and e.id in ia.module.assigns:
+            return charset(ia.module.assigns[e.id], depth + 1)
+        return None
     for c in walk_local(ia.node):
-        if isinstance(c, ast.Compare) and len(c.ops) == 1 and isinstance(c.ops[0], ast.In) and isinstance(c.comparators[0], (ast.Set, ast.List, ast.Tuple, ast.Constant)):
-            cm = c.comparators[0]
-            if isinstance(cm, ast.Constant) and isinstance(cm.value, str):
-                wild = set(cm.value)
-            elif not isinstance(cm, ast.Constant):
-                wild = {e.value for e in cm.elts if isinstance(e, ast.Constant)}
+        if isinstance(c, ast.Compare) and len(c.ops) == 1 and isinstance(c.ops[0], (ast.In, ast.NotIn)):
+            # `char in WILDCARDS` for the characters of the pattern, or `w in pattern` for the wildcards w
+            cs = charset(c.comparators[0])
+            if cs is None and isinstance(c.left, ast.Name):
+                for g in walk_local(ia.node):
+                    if isinstance(g, (ast.For, ast.comprehension)) and norm(g.target) == c.left.id:
+                        cs = charset(g.iter)
+            if cs is not None:
+                wild = cs
+        elif isinstance(c, ast.Call) and isinstance(c.func, ast.Attribute) and c.func.attr in ("isdisjoint", "intersection") and c.args:
+            cs = charset(c.func.value) or charset(c.args[0])
+            if cs is not None:
+                wild = cs
+        elif isinstance(c, ast.BinOp) and isinstance(c.op, ast.BitAnd):
+            cs = charset(c.left) or charset(c.right)
+            if cs is not None:
+                wild = cs
     if wild is None:
         raise AnalysisError("anchor vanished: wildcard character set in _is_pattern_absolute")
     special = FNMATCH_SPECIAL - (neutralised or set())
